@@ -75,6 +75,25 @@ def run(ctx):
             ctx.count("cli/" + ch)
             if r.cls != "ok" or r.stdout != want:
                 ctx.violation("cli-hash-message/" + ch, dict(message=short(m), length=len(m)), want.decode().strip(), str(r))
+    # `sign message` signs exactly that digest (file and stdin; non-UTF-8 content in particular)
+    phrase = "test test test test test test test test test test test junk"
+    key = pyref.bip32_derive(pyref.bip39_seed(phrase, ""), [0x8000002C, 0x8000003C, 0x80000000, 0, 0])
+    smsgs = [b"", b"hello world!", b"\xff", b"\x80abc", b"\xc3", b"\xed\xa0\x80", bytes(range(256)), rbytes(rng, 32), rbytes(rng, 1000), "é€𝔘".encode(), b"\x00\x00"]
+    runs = []
+    for i, m in enumerate(smsgs):
+        p = os.path.join(tmp, "s%d" % i)
+        open(p, "wb").write(m)
+        runs.append(dict(args=["sign", "--mnemonic", phrase, "message", p]))
+        runs.append(dict(args=["sign", "--mnemonic", phrase, "message", "-"], stdin=m))
+    res = ctx.cli(runs)
+    for i, m in enumerate(smsgs):
+        rr, ss, pp = pyref.ecdsa_sign_rfc6979(key, ref(m))
+        want = "0x%064x%064x%02x\n" % (rr, ss, 27 + pp)
+        for r, ch in ((res[2 * i], "file"), (res[2 * i + 1], "stdin")):
+            ctx.count("cli/sign-message/" + ch)
+            ctx.distinct(("sign-message", m, ch))
+            if r.cls != "ok" or r.stdout.decode() != want:
+                ctx.violation("cli-sign-message/" + ch, dict(message=short(m), length=len(m)), want.strip(), str(r)[:300])
     for f in os.listdir(tmp):
         os.remove(os.path.join(tmp, f))
     os.rmdir(tmp)
